@@ -284,6 +284,30 @@ int main(int argc, char ** argv)
         g->shoot(T, E);
         check("reset-before-initialize", variant ? "abandoned configuration whose initialize() raised, reset(), real configuration" : "abandoned configuration (never initialised), reset(), real configuration", E, T.pos);
       }
+      // H8c: an earlier life as ANOTHER configuration (the next one of the list: for a gA request another gA table, for a windowed
+      // request another window, ...), initialised and shot, then reset() and the real configuration
+      if (ti < 2 && cfgs.size() > 1) {
+        const Cfg & prev = cfgs[(ci + 1 + (size_t)ti) % cfgs.size()];
+        std::unique_ptr<decay0_generator> g(new decay0_generator);
+        bool lived = true;
+        try {
+          configure(*g, prev);
+          Tape tp(seed, 9);
+          g->initialize(tp);
+          bxdecay0::event e;
+          g->shoot(tp, e);
+        } catch (std::exception &) {
+          lived = false; // the earlier life may itself be a refused request: still a history
+        }
+        g->reset();
+        configure(*g, c);
+        Tape ti2(seed, 2);
+        g->initialize(ti2);
+        bxdecay0::event E;
+        T.rewind();
+        g->shoot(T, E);
+        check("earlier-life-as-another-configuration", std::string("earlier life as ") + prev.label() + (lived ? "" : " (refused)") + ", reset(), real configuration", E, T.pos);
+      }
       // H9: initialisation with another deviate source
       for (uint64_t is : {3ull, 4ull}) {
         auto g = fresh(is);
